@@ -136,6 +136,9 @@ pub fn frames_of(script: &[Step]) -> Vec<Vec<u8>> {
     let with_range_length = (script.len() / 3) % 2 == 1
         // (its unit would depend on the server's answer, which is not known when the frames are made)
         && !script.iter().any(|s| matches!(s.op, ClientOp::Initialize { enc: 2 | 3, .. }));
+    // the order of the top-level members of every message: sorted (`id` first) in half of the
+    // scripts, `id` last / `jsonrpc` last in the others
+    let order = (script.len() / 2) % 4;
     let mut versions: BTreeMap<&str, i64> = BTreeMap::new();
     let mut replica = Replica::default();
     script
@@ -145,7 +148,7 @@ pub fn frames_of(script: &[Step]) -> Vec<Vec<u8>> {
                 ClientOp::Open { uri, .. } => {
                     let v = versions.entry(uri.as_str()).or_insert(0);
                     *v = if style == 1 { *v + 1 } else { 1 };
-                    frame_with(st, Some(*v), None)
+                    frame_with(st, Some(*v), None, order)
                 }
                 ClientOp::Change { uri, edits } => {
                     let v = versions.entry(uri.as_str()).or_insert(0);
@@ -175,9 +178,9 @@ pub fn frames_of(script: &[Step]) -> Vec<Vec<u8>> {
                     } else {
                         None
                     };
-                    frame_with(st, Some(*v), lengths)
+                    frame_with(st, Some(*v), lengths, order)
                 }
-                _ => frame_with(st, None, None),
+                _ => frame_with(st, None, None, order),
             };
             replica.apply(&st.op);
             frame
@@ -185,7 +188,35 @@ pub fn frames_of(script: &[Step]) -> Vec<Vec<u8>> {
         .collect()
 }
 
-fn frame_with(st: &Step, version: Option<i64>, range_lengths: Option<Vec<Option<u64>>>) -> Vec<u8> {
+/// The JSON text of a message with its top-level members in the given order (JSON objects are
+/// unordered: a client may write `id` first, as serialisers that sort keys do, or last, as the
+/// examples of the JSON-RPC specification do).
+fn json_text(body: &Value, order: usize) -> String {
+    let first: &[&str] = match order {
+        2 => &["jsonrpc", "method", "params", "id"],
+        3 => &["method", "id", "params", "jsonrpc"],
+        _ => return serde_json::to_string(body).expect("json"),
+    };
+    let Some(m) = body.as_object() else { return serde_json::to_string(body).expect("json") };
+    let mut keys: Vec<&String> = vec![];
+    for k in first {
+        if let Some((key, _)) = m.get_key_value(*k) {
+            keys.push(key);
+        }
+    }
+    for k in m.keys() {
+        if !keys.contains(&k) {
+            keys.push(k);
+        }
+    }
+    let members: Vec<String> = keys
+        .iter()
+        .map(|k| format!("{}:{}", serde_json::to_string(k).expect("json"), serde_json::to_string(&m[k.as_str()]).expect("json")))
+        .collect();
+    format!("{{{}}}", members.join(","))
+}
+
+fn frame_with(st: &Step, version: Option<i64>, range_lengths: Option<Vec<Option<u64>>>, order: usize) -> Vec<u8> {
     let mut body = body_of(&st.op);
     if let Some(v) = version {
         if let Some(td) = body.get_mut("params").and_then(|p| p.get_mut("textDocument")) {
@@ -208,7 +239,7 @@ fn frame_with(st: &Step, version: Option<i64>, range_lengths: Option<Vec<Option<
     }
     // style 3: the body pretty-printed (insignificant white space inside the JSON text)
     // (and a final line feed, which is still part of the counted JSON text)
-    let body = if st.hdr == 3 { format!("{}\n", serde_json::to_string_pretty(&body).expect("json")) } else { serde_json::to_string(&body).expect("json") };
+    let body = if st.hdr == 3 { format!("{}\n", serde_json::to_string_pretty(&body).expect("json")) } else { json_text(&body, order) };
     let mut out = match st.hdr {
         1 => format!("Content-Length: {}\r\n{CONTENT_TYPE}\r\n", body.len()),
         2 => format!("{CONTENT_TYPE}Content-Length: {}\r\n\r\n", body.len()),
